@@ -22,6 +22,9 @@ func executeSpec(spec *RunSpec, st *Stats) *Violation {
 		copy(nd, d)
 		spec.Docs[i] = nd
 	}
+	if spec.GoMaxProcs > 0 && spec.GoMaxProcs != runtime.GOMAXPROCS(0) {
+		runtime.GOMAXPROCS(spec.GoMaxProcs) // as in the process that found it
+	}
 	if spec.ProcHist != nil && spec.ProcHist.Needed {
 		return executeHistory(spec, st)
 	}
